@@ -124,6 +124,14 @@ Definition stale (p : option (option (list cp))) (st : store) : Prop :=
   exists v name f, read_hint p = PRet (Some (v, name)) /\ In f (files st)
                    /\ name_eqb (fname f) name = true /\ glatest st <> Some f.
 
+(* The pointer cannot be used and _current_version_info falls back to the scan: there is no pointer file, or its content
+   is undecodable / blank / matches neither form (read_hint = PRet None), or it PARSES but names a file that is not stored
+   (storage.exists(f"{metadata_path}/{filename}") is False: a pointer restored from elsewhere, a name of a collected
+   version, a truncated or edited name that still matches the pattern, a legacy number of a missing legacy file). *)
+Definition unusable (p : option (option (list cp))) (fs : list mfile) : Prop :=
+  read_hint p = PRet None
+  \/ exists v name, read_hint p = PRet (Some (v, name)) /\ exists_meta name (map entry_of fs) = false.
+
 (* Text as Python classifies it: every ASCII character carries the classification `acp` gives it
    (re-checked against the real interpreter on every run).  Nothing is assumed about other characters. *)
 Definition ascii_classified (p : option (option (list cp))) : Prop :=
